@@ -13,6 +13,7 @@ Decided (structure of spifconf_shell_expand and the variable store):
   V6  the variable store: every early exit of the lookup loop is decided by the same ordering function that the
       insertion uses (strcmp), so lookup and insertion agree on the order
   V4  every indexed store into the result buffer is below its size (GHOSTPOS over the output index; also with DEBUG=0)
+  V7  the escape table: every backslash-letter the code turns into a constant yields the control character of that name
   B1  CAP over the builtin_* functions: every write into their buffers (the %exec command line, ...) is bounded
 Not decided: the value of the expansion (escape table, quoting, %put/%get semantics)."""
 import re
@@ -39,7 +40,7 @@ def run(tier="quick"):
                             "bounded copies, effect set, ordering agreement of the variable store")
     for rid, txt in (("N1", "input cursor never passes the terminator"), ("V1", "every iteration writes position j or retracts j"),
                      ("V2", "bounded copies: destination newbuff + j, size max - j"), ("V3", "result terminated at j"), ("V4", "every indexed store into the result buffer is inside it"),
-                     ("V5", "effects within the declared set"), ("B1", "the built-ins' buffer writes are bounded (CAP)"), ("V6", "lookup early exits use the insertion's ordering function")):
+                     ("V5", "effects within the declared set"), ("B1", "the built-ins' buffer writes are bounded (CAP)"), ("V7", "escape letters map to the control characters they name"), ("V6", "lookup early exits use the insertion's ordering function")):
         chk.rule(rid, txt)
     prog = facts.extract(only=["conf.c"])
     u = prog.units["conf.c"]
@@ -271,6 +272,55 @@ def run(tier="quick"):
                               "lookup and insertion can disagree on the order and stored variables become unreachable" % (
                                   g.name, X.render(cond)[:50], "/".join(sorted(ordfn))),
                        proof="decided by %s" % "/".join(sorted(ordfn)))
+    # ---- V7 escape table: each letter after a backslash that the code turns into a constant yields the control character C
+    # gives that letter
+    ESC_REF = {ord("n"): 10, ord("r"): 13, ord("t"): 9, ord("b"): 8, ord("f"): 12, ord("a"): 7, ord("v"): 11, ord("e"): 27}
+    nesc = 0
+    for sw in [x for x in walk(f.body) if x.get("k") == "switch"]:
+        body = sw.get("body")
+        if body is None or body.get("k") != "block":
+            continue
+        entries = []
+        labels = []
+        stmts = list(body.get("ch", []))
+        i_ = 0
+        while i_ < len(stmts):
+            st_ = stmts[i_]
+            if st_.get("k") in ("case", "default"):
+                lab = st_
+                while lab is not None and lab.get("k") in ("case", "default"):
+                    if lab.get("k") == "case" and lab.get("val") is not None:
+                        labels.append(X.const_val(lab["val"]))
+                    inner = lab.get("sub")
+                    if inner is not None and inner.get("k") in ("case", "default"):
+                        lab = inner
+                    else:
+                        first = inner
+                        lab = None
+                seq = [first] if first is not None else []
+                j_ = i_ + 1
+                while j_ < len(stmts) and stmts[j_].get("k") not in ("case", "default", "break"):
+                    seq.append(stmts[j_])
+                    j_ += 1
+                for q in seq:
+                    if q.get("k") == "assign" and q.get("op") == "=" and X.strip(q["ch"][0]).get("k") == "index" and X.const_val(q["ch"][1]) is not None:
+                        for lv in labels:
+                            entries.append((lv, X.const_val(q["ch"][1]), q))
+                        break
+                if j_ < len(stmts) and stmts[j_].get("k") == "break":
+                    labels = []
+                i_ = j_
+                continue
+            i_ += 1
+        letters = [e for e in entries if e[0] in ESC_REF]
+        if len(letters) < 3:
+            continue
+        for lv, cv, q in letters:
+            nesc += 1
+            chk.ob("V7", f.name, "escape:\\%s" % chr(lv), cv == ESC_REF[lv], loc=f.loc(q),
+                   detail="%s turns backslash-%s into character %d; the control character that letter names is %d" % (f.name, chr(lv), cv, ESC_REF[lv]),
+                   proof="\\%s -> %d" % (chr(lv), cv))
+    chk.count("escape_table_entries", nesc, floor=6)
     # ---- B1 the built-ins the expansion calls keep every write inside their own buffers (the command line built by %exec,
     # the number printed by %random, the directory listing): CAP with the string/file tools that store through a pointer
     # argument interpreted as well
